@@ -24,7 +24,10 @@ func GenDaemon(prop string, seed uint64, tier string) *DaemonScenario {
 	if r.Bool(30) {
 		sc.Scheme = SchemeNames[0]
 	}
-	sc.PeriodS = r.Range(1, 2)
+	sc.PeriodS = r.Range(2, 3) // the catch-up period is whole seconds (>= 1): it must be shorter than the period for a gap to close
+	if prop == "C06" || prop == "C19" || prop == "C14" || prop == "C15" {
+		sc.PeriodS = r.Range(1, 2)
+	}
 	sc.CatchupS = 1
 	sc.Backend = r.Pick("bolt", "bolt", "memdb")
 	sc.MemSize = r.Range(12, 40)
@@ -121,6 +124,24 @@ func GenDaemon(prop string, seed uint64, tier string) *DaemonScenario {
 			use["stop"], use["partition"] = false, false
 		}
 	case "C07":
+		if r.Bool(25) {
+			// replace shape: one member leaves, two join, and one remaining member goes down between the
+			// end of the key generation and the transition: the old shares keep their threshold only
+			// as long as the leaver is there, the new ones have theirs from the transition on
+			sc.N, sc.T, sc.Extra = 4, 3, 2
+			p := ResharePlan{AtRound: r.Range(2, 4), Join: []int{4, 5}, Leave: []int{r.Range(1, 3)}, NewT: 3, StopLeavers: r.Bool(70)}
+			sc.Reshares = []ResharePlan{p}
+			stop := 1
+			for stop == p.Leave[0] {
+				stop = r.Range(1, 3)
+			}
+			t0 := g0 + int64(p.AtRound-1)*periodMs + int64(sc.KickoffS+3*sc.PhaseS+4)*1000
+			add(Act{AtMs: t0 + int64(r.Intn(2000)), Kind: "stop", Node: stop})
+			rounds = p.AtRound + 12 + (sc.KickoffS+3*sc.PhaseS)/sc.PeriodS + 6
+			faultEnd = g0 + int64(rounds)*periodMs
+			use["stop"], use["partition"], use["loss"] = false, false, r.Bool(30)
+			break
+		}
 		kinds := []string{"", "", "", "abort", "expire", "exec_partition"}
 		sc.Extra = r.Range(0, 2)
 		n := 1
@@ -143,6 +164,7 @@ func GenDaemon(prop string, seed uint64, tier string) *DaemonScenario {
 			}
 			if members > 2 && r.Bool(40) && k == 0 {
 				p.Leave = []int{r.Range(1, sc.N-1)}
+				p.StopLeavers = r.Bool(40)
 			}
 			nm := members + joined - len(p.Leave)
 			lo := nm/2 + 1
